@@ -12,6 +12,15 @@ Streams
   cache   : after every program of a history (and after every API query) every entry of the containers registered as
             memo / protoCache is rendered; an entry present earlier must render the same later (immutable after
             insertion), transient containers must be empty between checks
+  procreg : AST scan of every non-test pyanalyze module for process-level state (module-level containers and instances
+            of classes with container fields, class-level containers, memoising decorators) and for every `id(…)` used
+            as a key / hash / membership test -> Generated/CacheSites.lean; obligations `proc_state_registered`,
+            `id_keys_registered`
+  procstate: pairs (history H, program P) that share a variable NAME narrowed in one branch and used after it (attribute,
+            module global, closure variable) with different types, run in fresh interpreters: P alone / H then P with
+            one Checker / H then P with a fresh Checker each, the AST of H dropped (gc) before P is parsed; the
+            diagnostics of P must be equal, the process-level containers must keep their entries, and a key component
+            that looks like an address must belong to a live object
   unify   : value.py unify_bounds_maps against the pure Lean `unifyBM`; its arguments must be unchanged afterwards
             and the result must not share a list with them
   memo    : Checker.make_type_object / ArgSpecCache.get_argspec / _get_generic_bases_cached driven with query
@@ -28,7 +37,8 @@ Property search (direct, oracle = the implementation compared with itself under 
   generated programs are checked (i) in fresh subprocesses under several PYTHONHASHSEED values, (ii) several
   times in one process, (iii) after histories of other generated programs with one shared Checker; rendered
   diagnostics (line, column, code, full text, module tokens normalised, sorted by position only) must be equal.
-Classes still open in /repo: tryDefNodeOrder, defNodeSetOrder (order), cacheUnderFailedAssumption (history). The six
+Classes still open in /repo: tryDefNodeOrder, defNodeSetOrder (order), cacheUnderFailedAssumption (history); the
+classes repaired since (… typeObjectStr 99947e4, inSetLiteralOrder c06bd97) are not accepted any more. The six
 classes repaired by a944eb3, 24b231d, da6a3f3, 5fee81d, e01ac16 are no longer accepted: a re-appearance is a new
 violation (their witnesses stay in corpus/C10.jsonl).
 """
@@ -45,6 +55,7 @@ CACHE_FILES = ["pyanalyze/checker.py", "pyanalyze/arg_spec.py", "pyanalyze/type_
 SCAN_FILES = [
     "pyanalyze/value.py", "pyanalyze/stacked_scopes.py", "pyanalyze/signature.py", "pyanalyze/type_object.py",
     "pyanalyze/checker.py", "pyanalyze/name_check_visitor.py", "pyanalyze/arg_spec.py", "pyanalyze/format_strings.py",
+    "pyanalyze/predicates.py",
 ]
 ANCHORS = [
     ("pyanalyze/type_object.py", "TypeObject.can_assign"),
@@ -103,8 +114,11 @@ ASSUMPTIONS = [
     "Model B abstracts one slot check `expected.can_assign(actual)` to an atom (true / false / true-unless-Any-is-"
     "excluded / accepted-with-a-bound / nested protocol check); a positive answer is a bounds map of tokens (the kinds "
     "of bounds and the solving of type variables are not modelled); Lean values are immutable, so that no Python "
-    "operation writes into a cached value is checked by the cache snapshots and the unify stream, not proved; module-"
-    "level (process-global) caches are not per-Checker and not scanned; for typeshed protocols "
+    "operation writes into a cached value is checked by the cache snapshots and the unify stream, not proved; "
+    "process-level state is registered by a syntactic scan (module-level assignments, class bodies, decorators); "
+    "state created otherwise (setattr, closures, C extensions) and the content of lru_cache tables are not seen; the "
+    "liveness check of address-like key components uses gc.get_objects (objects not tracked by the gc would look dead; "
+    "none are keyed today); large process-level memo tables are re-rendered in rotating parts; for typeshed protocols "
     "the atom of a pair is measured on fresh checkers (both modes) and only protocols whose verdict is the protocol "
     "check alone are used",
     "ArgSpecCache._cached_get_argspec keys its table by the object only although the computation also receives "
@@ -184,6 +198,9 @@ def _collect_globals(trees):
             elif isinstance(node, (ast.FunctionDef, ast.AsyncFunctionDef)) and _is_set_annotation(node.returns):
                 funcs.add(node.name)
     return attrs, funcs, dictsets
+
+
+PAYLOAD_FIELDS = set()   # dataclass fields annotated as a collection of `object` / `Any` (filled by scan_sites)
 
 
 class _FuncScan:
@@ -307,7 +324,33 @@ class _FuncScan:
     def add(self, kind, expr):
         self.sites.append((self.file, self.qual, "%s:%s" % (kind, ast.unparse(expr))))
 
+    def payload_names(self):
+        """Local names bound to the payload of a KnownValue (`<expr>.val`): an arbitrary runtime object, possibly a set."""
+        names = set()
+        a = self.fn.args
+        for arg in a.posonlyargs + a.args + a.kwonlyargs:
+            if isinstance(arg.annotation, ast.Name) and arg.annotation.id in ("Any", "object") and arg.arg.endswith("val"):
+                names.add(arg.arg)   # e.g. `other_val: Any`: the caller hands over `rhs.val`
+        for node in self.own_nodes():
+            if isinstance(node, ast.Assign) and isinstance(node.value, ast.Attribute) and node.value.attr == "val":
+                names |= {t.id for t in node.targets if isinstance(t, ast.Name)}
+        return names
+
     def scan(self):
+        payload = self.payload_names()
+        if payload:
+            for node in self.own_nodes():
+                it = None
+                if isinstance(node, (ast.For, ast.comprehension)):
+                    it = node.iter
+                elif isinstance(node, ast.Call) and isinstance(node.func, ast.Name) and node.func.id in ("list", "tuple") and node.args:
+                    it = node.args[0]
+                if isinstance(it, ast.Name) and it.id in payload:
+                    self.add("payload-iter", it)
+        for node in self.own_nodes():   # fields holding such a payload collection (`pattern_vals: Sequence[object]`)
+            it = node.iter if isinstance(node, (ast.For, ast.comprehension)) else None
+            if isinstance(it, ast.Attribute) and it.attr in PAYLOAD_FIELDS:
+                self.add("payload-iter", it)
         for node in self.own_nodes():
             if isinstance(node, (ast.For, ast.AsyncFor)) and self.is_set(node.iter):
                 self.add("for", node.iter)
@@ -359,6 +402,13 @@ def scan_sites(repo):
     """[(file, qualified function, fingerprint)] of every set-iteration site; fingerprints are line-independent."""
     trees = {f: ast.parse(open(os.path.join(repo, f)).read()) for f in SCAN_FILES}
     gattrs, gfuncs, gdictsets = _collect_globals(trees)
+    PAYLOAD_FIELDS.clear()
+    for tree in trees.values():
+        for node in ast.walk(tree):
+            if isinstance(node, ast.AnnAssign) and isinstance(node.target, ast.Name) and isinstance(node.annotation, ast.Subscript) \
+                    and isinstance(node.annotation.value, ast.Name) and node.annotation.value.id in ("Sequence", "Iterable", "Collection", "Container") \
+                    and isinstance(node.annotation.slice, ast.Name) and node.annotation.slice.id in ("object", "Any"):
+                PAYLOAD_FIELDS.add(node.target.id)
     sites = []
     for f, tree in trees.items():
         module_sets = set()
@@ -450,6 +500,106 @@ def scan_caches(repo):
     return sorted(out)
 
 
+_CACHE_DECORATORS = {"lru_cache", "cache", "cached_per_instance", "memoize", "cached_property", "memoize_with_expiry"}
+
+
+def _pyanalyze_trees(repo):
+    import glob
+    files = sorted(f for f in glob.glob(os.path.join(repo, "pyanalyze", "*.py")) if not os.path.basename(f).startswith("test_"))
+    return {os.path.relpath(f, repo): ast.parse(open(f).read()) for f in files}
+
+
+def _container_fields(cls):
+    fields = []
+    for node in cls.body:
+        if isinstance(node, ast.AnnAssign) and isinstance(node.target, ast.Name) and (
+                _is_container_annotation(node.annotation) or (node.value is not None and _is_container_value(node.value))):
+            fields.append(node.target.id)
+        elif isinstance(node, ast.Assign) and _is_container_value(node.value):
+            fields += [t.id for t in node.targets if isinstance(t, ast.Name)]
+    return fields
+
+
+def scan_proc_state(repo):
+    """[(file, name, tag)]: process-level state of every non-test pyanalyze module: module-level names bound to a
+    mutable container or to an instance of a class with container fields, class-level mutable attributes, functions
+    under a memoising decorator."""
+    trees = _pyanalyze_trees(repo)
+    cont_classes = {}
+    for tree in trees.values():
+        for cls in [n for n in ast.walk(tree) if isinstance(n, ast.ClassDef)]:
+            fields = _container_fields(cls)
+            if fields:
+                cont_classes[cls.name] = fields
+    out = set()
+    for f, tree in trees.items():
+        for node in tree.body:
+            tgt = val = None
+            if isinstance(node, ast.Assign) and len(node.targets) == 1 and isinstance(node.targets[0], ast.Name):
+                tgt, val = node.targets[0].id, node.value
+            elif isinstance(node, ast.AnnAssign) and isinstance(node.target, ast.Name) and node.value is not None:
+                tgt, val = node.target.id, node.value
+            if tgt is None:
+                continue
+            if _is_container_value(val):
+                out.add((f, tgt, "container"))
+            elif isinstance(val, ast.Call):
+                fn = val.func
+                n = fn.id if isinstance(fn, ast.Name) else fn.attr if isinstance(fn, ast.Attribute) else None
+                if n in cont_classes:
+                    out.add((f, tgt, "instance:%s(%s)" % (n, ",".join(cont_classes[n]))))
+        for fn in [n for n in ast.walk(tree) if isinstance(n, (ast.FunctionDef, ast.AsyncFunctionDef))]:
+            for d in fn.decorator_list:
+                dd = d.func if isinstance(d, ast.Call) else d
+                n = dd.id if isinstance(dd, ast.Name) else dd.attr if isinstance(dd, ast.Attribute) else None
+                if n in _CACHE_DECORATORS:
+                    out.add((f, fn.name, "decorated:" + n))
+        for cls in [n for n in ast.walk(tree) if isinstance(n, ast.ClassDef)]:
+            for node in cls.body:
+                if isinstance(node, ast.Assign) and _is_container_value(node.value):
+                    for t in node.targets:
+                        if isinstance(t, ast.Name):
+                            out.add((f, cls.name + "." + t.id, "classattr"))
+                elif isinstance(node, ast.AnnAssign) and isinstance(node.target, ast.Name) and node.value is not None \
+                        and _is_container_value(node.value) and not (isinstance(node.value, ast.Call) and getattr(node.value.func, "id", "") == "field"):
+                    out.add((f, cls.name + "." + node.target.id, "classattr"))
+    return sorted(out)
+
+
+def scan_id_keys(repo):
+    """[(file, qualified function, expression)]: every use of `id(…)` in the non-test pyanalyze modules, rendered as the
+    smallest enclosing key / membership / hash / assignment expression."""
+    out = []
+    for f, tree in _pyanalyze_trees(repo).items():
+        parents = {}
+        for p in ast.walk(tree):
+            for c in ast.iter_child_nodes(p):
+                parents[c] = p
+
+        def qual(n):
+            names = []
+            while n in parents:
+                n = parents[n]
+                if isinstance(n, (ast.FunctionDef, ast.AsyncFunctionDef, ast.ClassDef)):
+                    names.append(n.name)
+            return ".".join(reversed(names)) or "<module>"
+        for n in ast.walk(tree):
+            if isinstance(n, ast.Call) and isinstance(n.func, ast.Name) and n.func.id == "id" and len(n.args) == 1:
+                e = parents.get(n)
+                while isinstance(e, (ast.Tuple, ast.List, ast.Starred)):
+                    e = parents.get(e)
+                if isinstance(e, ast.Subscript) and isinstance(parents.get(e), (ast.Assign, ast.AugAssign)) and e in getattr(parents[e], "targets", [getattr(parents[e], "target", None)]):
+                    pass
+                out.append((f, qual(n), ast.unparse(e) if e is not None else ast.unparse(n)))
+    res, seen = [], {}
+    for o in sorted(out):
+        k = seen.get(o, 0)
+        seen[o] = k + 1
+        if k == 0:
+            res.append(o)
+    return res
+
+
 def _lean_str(s):
     return '"' + s.replace("\\", "\\\\").replace('"', '\\"') + '"'
 
@@ -480,6 +630,13 @@ def translate(ctx):
         "/-- (file, class, attribute) of every container attribute (dict / list / set) of the classes whose\n"
         "instances live as long as a Checker: the places where a cached value can be mutated. -/\n"
         "def scannedCaches : List (String × String × String) := [\n" + rows + "\n]\n\n"
+        "/-- (file, name, what it is) of the process-level state: module-level mutable containers and instances of\n"
+        "classes with container fields, class-level mutable attributes, functions under a memoising decorator. -/\n"
+        "def scannedProcState : List (String × String × String) := [\n"
+        + ",\n".join("  (%s, %s, %s)" % tuple(_lean_str(x) for x in c) for c in scan_proc_state(pya.REPO)) + "\n]\n\n"
+        "/-- (file, function, expression) of every use of `id(…)` as (part of) a key, hash or membership test. -/\n"
+        "def scannedIdKeys : List (String × String × String) := [\n"
+        + ",\n".join("  (%s, %s, %s)" % tuple(_lean_str(x) for x in c) for c in scan_id_keys(pya.REPO)) + "\n]\n\n"
         "end Pya.C10.Gen\n"
     )
     lean.write_if_changed(os.path.join(lean.LEAN, "PyaModel", "Generated", "CacheSites.lean"), text)
@@ -641,6 +798,211 @@ class CacheWatch:
                     self.snap[kt] = (r, old[1])
         self.steps += 1
         return changes
+
+
+# ============================================================================================ process-level state
+def proc_kinds():
+    """{(file, name): kind} of Lean `modelledProcState` (read from the source)."""
+    src = open(os.path.join(lean.LEAN, "PyaModel", "Spec", "CacheSpec.lean")).read()
+    body = src[src.index("def modelledProcState"):]
+    body = body[:body.index("\n]")]
+    return {(m.group(1), m.group(2)): m.group(3) for m in re.finditer(r'\("([^"]*)", "([^"]*)", \.(\w+)\)', body)}
+
+
+class ProcWatch:
+    """The process-level containers the scan found (module-level containers, container fields of module-level instances,
+    class-level containers). Tables written at import time only (constTable / config) must render the same after every
+    program; memo tables must keep their entries unchanged, and a key component that looks like an address must belong to
+    a live object (an identity key is sound only while its object is alive). Unregistered containers count as memo."""
+
+    def __init__(self, sites, kinds, budget=1500):
+        self.items = []
+        for f, name, tag in sites:
+            if tag.startswith("decorated"):
+                continue
+            kind = kinds.get((f, name), "memo")
+            if kind in ("registry", "accumulator", "memoFunction"):
+                continue
+            try:
+                obj = importlib.import_module(f[:-3].replace("/", "."))
+                for part in name.split("."):
+                    obj = getattr(obj, part)
+            except Exception:
+                continue
+            if tag.startswith("instance:"):
+                for fld in tag[tag.index("(") + 1:-1].split(","):
+                    c = getattr(obj, fld, None)
+                    if isinstance(c, (dict, list, set)):
+                        self.items.append(("%s:%s.%s" % (f, name, fld), kind, c))
+            elif isinstance(obj, (dict, list, set, frozenset)) or hasattr(obj, "items"):
+                self.items.append(("%s:%s" % (f, name), kind, obj))
+        self.whole = {label: self._render(c) for label, kind, c in self.items if kind in ("constTable", "config")}
+        self.entries = {}
+        self.budget = budget
+        self.turn = 0
+
+    @staticmethod
+    def _render(c):
+        try:
+            return repr(sorted(c, key=repr)) if isinstance(c, (set, frozenset)) else repr(c)
+        except Exception as e:
+            return "<repr failed: %s>" % type(e).__name__
+
+    def step(self):
+        """-> [(container, key, before, after)]"""
+        import gc
+        changes, suspects = [], []
+        self.turn += 1
+        for label, kind, c in self.items:
+            if kind in ("constTable", "config"):
+                r = self._render(c)
+                if r != self.whole[label]:
+                    changes.append((label, "<whole container>", self.whole[label][:400], r[:400]))
+                    self.whole[label] = r
+                continue
+            if not isinstance(c, dict):
+                continue
+            snap = self.entries.setdefault(label, {})
+            n = 0
+            for k, v in list(c.items()):
+                for comp in (k if isinstance(k, tuple) else (k,)):
+                    if isinstance(comp, int) and not isinstance(comp, bool) and comp >= 1 << 24:
+                        suspects.append((label, k, comp))
+                try:
+                    kt = (repr(k), hash(k))
+                except Exception:
+                    kt = (repr(k), id(k))
+                old = snap.get(kt)
+                if old is None:
+                    if len(snap) < 20 * self.budget:
+                        snap[kt] = self._render(v)
+                elif n < self.budget and (hash(kt) + self.turn) % max(1, len(snap) // self.budget) == 0:
+                    n += 1    # large tables: a rotating part of the old entries is re-rendered at every step
+                    r = self._render(v)
+                    if r != old:
+                        changes.append((label, kt[0][:300], old[:400], r[:400]))
+                        snap[kt] = r
+        if suspects:
+            live = {id(o) for o in gc.get_objects()}
+            dead = [(label, k, a) for label, k, a in suspects if a not in live]
+            if dead:
+                label, k, a = dead[0]
+                changes.append((label, repr(k)[:300], "a key that contains the address %d of an object" % a,
+                                "no live object has that address any more (%d such keys): a later object can take the address "
+                                "and inherit the entry" % len(dead)))
+        return changes
+
+
+PROC_JOB = r'''
+import gc, json, sys
+sys.path.insert(0, %(verif)r)
+sys.path.insert(0, %(scratch)r)
+from harness.props import c10
+job = json.load(open(sys.argv[1]))
+watch = c10.ProcWatch(c10.scan_proc_state(c10.pya.REPO), c10.proc_kinds()) if job.get("watch") else None
+changes = []
+kw = c10.new_kwargs()
+for h in job["history"]:
+    c10.check_program(h, kw if job["share"] else c10.new_kwargs())
+    gc.collect()          # check_program keeps nothing: the AST of the history is freed here
+    if watch:
+        changes += watch.step()
+r = c10.check_program(job["program"], kw if job["share"] else c10.new_kwargs())
+if watch:
+    changes += watch.step()
+json.dump({"rendering": r, "changes": changes}, open(sys.argv[2], "w"), default=str)
+'''
+
+PROC_ROUTES = ("attr", "global", "closure")
+PROC_TYPES = [("Union[int, str, None]", "Union[bytes, float, None]"), ("Union[list[int], None]", "Union[dict[str, int], None]"),
+              ("Optional[str]", "Optional[float]"), ("Union[int, None]", "Union[str, bytes, None]")]
+
+
+def procstate_program(route, name, types, n, uses, tag):
+    """n classes / functions that narrow `name` (an attribute / a module global / a closure variable) in one branch only
+    and use it `uses` times after the branch."""
+    L = ["from typing import Union, Optional", "from typing_extensions import reveal_type"]
+    args = ", ".join([("self.%s" % name) if route == "attr" else name] * uses)
+    if route == "global":
+        L.append("%s: %s = None" % (name, types))
+    for i in range(n):
+        if route == "attr":
+            L += ["class %s%d:" % (tag, i), "    %s: %s" % (name, types), "    def m(self, strict: bool) -> None:", "        if strict:",
+                  "            assert self.%s is not None" % name, "        reveal_type((%s,))" % args]
+        elif route == "global":
+            L += ["def %s%d(strict: bool) -> None:" % (tag.lower(), i), "    if strict:", "        assert %s is not None" % name,
+                  "    reveal_type((%s,))" % args]
+        else:
+            L += ["def %s%d(%s: %s) -> None:" % (tag.lower(), i, name, types), "    def inner(strict: bool) -> None:", "        if strict:",
+                  "            assert %s is not None" % name, "        reveal_type((%s,))" % args, "    inner(True)"]
+    return "\n".join(L) + "\n"
+
+
+def start_proc_job(ctx, job, tag):
+    drv = os.path.join(ctx.scratch, "c10_procjob.py")
+    if not os.path.exists(drv):
+        with open(drv, "w") as f:
+            f.write(PROC_JOB % {"verif": lean.HERE, "scratch": ctx.scratch})
+    pin, pout = os.path.join(ctx.scratch, "pjob-%s.json" % tag), os.path.join(ctx.scratch, "pout-%s.json" % tag)
+    json.dump(job, open(pin, "w"))
+    env = dict(os.environ, PYTHONHASHSEED=str(job.get("seed", 0)), VERIF_REPO=pya.REPO)
+    p = subprocess.Popen([sys.executable, drv, pin, pout], env=env, stdout=subprocess.DEVNULL, stderr=subprocess.PIPE, text=True)
+    return p, pout, tag
+
+
+def finish_proc_job(j):
+    p, pout, tag = j
+    _, err = p.communicate(timeout=3000)
+    if p.returncode != 0:
+        raise RuntimeError("process-history job %s failed: %s" % (tag, err[-1500:]))
+    return json.load(open(pout))
+
+
+def start_procstate(ctx):
+    """Pairs (history H, program P) sharing a variable NAME (narrowed in one branch, used after it) with different types;
+    each pair is run in fresh interpreters: P alone, H then P with one Checker, H then P with a fresh Checker each; the AST
+    of H is dropped (gc) before P is parsed."""
+    rng = ctx.rng
+    ctx._c10_pruns = getattr(ctx, "_c10_pruns", 0) + 1
+    names = ["value", "payload", "cursor", "state", "result", "owner", "limit", "handle", "buffer"]
+    rng.shuffle(names)
+    pairs = []
+    for n in range(ctx.n(3, 9)):
+        route = PROC_ROUTES[n % 3]
+        th, tp = PROC_TYPES[rng.randrange(len(PROC_TYPES))]
+        nh, uses, np_ = rng.randint(30, 45), rng.randint(18, 26), rng.randint(35, 50)
+        hist = [procstate_program(route, names[n], th, nh, uses + j, "Item") for j in range(2)]
+        prog = procstate_program(route, names[n], tp, np_, 4, "Record")
+        jobs = {mode: start_proc_job(ctx, {"history": h, "program": prog, "share": share, "watch": mode == "shared", "seed": n},
+                                     "%d-%d-%s" % (ctx._c10_pruns, n, mode))
+                for mode, h, share in (("alone", [], True), ("shared", hist, True), ("fresh", hist, False))}
+        pairs.append((route, names[n], hist, prog, jobs))
+    return pairs
+
+
+def finish_procstate(ctx, pairs):
+    for route, name, hist, prog, jobs in pairs:
+        res = {mode: finish_proc_job(j) for mode, j in jobs.items()}
+        alone = res["alone"]["rendering"]
+        ctx.count(1, **{"procstate_" + route: 1})
+        ctx.nontriv("procstate|" + prog[:200])
+        for mode in ("shared", "fresh"):
+            ctx.corr("procstate")
+            r = res[mode]["rendering"]
+            if r != alone:
+                nd = sum(1 for a, b in zip(alone, r) if a != b) + abs(len(alone) - len(r))
+                ex = next(((a, b) for a, b in zip(alone, r) if a != b), (None, None))
+                ctx.candidate({"kind": "process-history", "history": hist, "program": prog, "share": mode == "shared",
+                               "fresh": alone[:3], "other": r[:3]},
+                              "%d of %d diagnostics of a program differ between a fresh process and the same process after "
+                              "unrelated programs that use the same variable name `%s` (%s; %s Checker): %r / %r" % (
+                                  nd, len(r), name, route, "one" if mode == "shared" else "a fresh", ex[0] and ex[0][3][:100], ex[1] and ex[1][3][:100]),
+                              cls=None, conforms=True, stream="procstate")
+            for ch in res[mode]["changes"][:2]:
+                ctx.candidate({"kind": "process-history", "history": hist, "program": prog, "share": mode == "shared",
+                               "container": ch[0], "key": ch[1], "before": ch[2], "after": ch[3]},
+                              "process-level state %s: %s -> %s" % (ch[0], ch[2][:200], ch[3][:200]), cls=None, conforms=True,
+                              stream="procstate")
 
 
 # ============================================================================================ protocol worlds (Model B)
@@ -1009,6 +1371,24 @@ def snip_defnodes(k, n, test):
     return Snippet("defnodes", L, n=n, k=k)
 
 
+def snip_inset(k, names):
+    """`x in {…}` with a set literal: the str variable is narrowed to the Literal union of the members."""
+    L = ["def f%d(x: str) -> None:" % k, "    if x in {%s}:" % ", ".join("%r" % n for n in names), "        reveal_type(x)"]
+    return Snippet("inset", L, elems=list(names))
+
+
+# callables whose typeshed signature has a protocol-typed parameter: (import, reveal expression, a call of it)
+SIGCALLS = [("", "len", "len([1])"), ("import operator", "operator.index", "operator.index(3)"), ("", "hash", "hash(1)"),
+            ("", "iter", "iter([1])"), ("", "bytes", "bytes(3)"), ("", "int", "int('3')"), ("", "float", "float('3')"),
+            ("", "reversed", "reversed([1])"), ("import operator", "operator.length_hint", "operator.length_hint([1])")]
+
+
+def snip_sig(k, which, call):
+    imp, fn, callexpr = SIGCALLS[which % len(SIGCALLS)]
+    body = "print(%s)" % callexpr if call else "reveal_type(%s)" % fn
+    return Snippet("sig", ([imp] if imp else []) + ["def f%d() -> None:" % k, "    " + body], fn=fn, call=call)
+
+
 def snip_control(k, which):
     body = ["a.nope", "print(a + 'x')", "b: str = a\n    print(b)", "reveal_type(a)", "len(a)", "a(1)"][which % 6]
     return Snippet("control", ["def f%d(a: int) -> None:" % k, "    " + body])
@@ -1115,6 +1495,8 @@ def gen_programs(ctx, worlds):
         snips.append(snip_defnodes(next(k), n, n % 2))
     for w in range(3):
         snips.append(snip_control(next(k), w))
+    for n in (1, 2, 4):
+        snips.append(snip_inset(next(k), NAMEPOOL[:n]))
     # --- seeded random
     n_rand = ctx.n(60, 900)
     for _ in range(n_rand):
@@ -1143,6 +1525,8 @@ def gen_programs(ctx, worlds):
             snips.append(snip_try(kk, rng.randint(1, 4), rng.choice(["try", "try", "with"])))
         elif r < 0.93:
             snips.append(snip_defnodes(kk, rng.randint(1, 4), rng.randrange(2)))
+        elif r < 0.97:
+            snips.append(snip_inset(kk, rng.sample(NAMEPOOL, rng.randint(1, 5))))
         else:
             snips.append(snip_control(kk, rng.randrange(6)))
     rng.shuffle(snips)
@@ -1179,6 +1563,10 @@ def gen_programs(ctx, worlds):
         decl, exprs = TCALLS[fi]
         for e in rng.sample(exprs, min(len(exprs), ctx.n(3, 5))):
             programs.append(Program([snip_tcall(next(kk), decl, e, rng.randrange(3))], imports=[]))
+    # signatures kept by the ArgSpecCache: one program reveals the signature, another one calls the callable
+    for which in rng.sample(range(len(SIGCALLS)), ctx.n(4, len(SIGCALLS))):
+        programs.append(Program([snip_sig(next(kk), which, False)]))
+        programs.append(Program([snip_sig(next(kk), which, True)]))
     # the pair of the seeded regression: the same callable and receiver, another second argument
     programs.append(Program([snip_tcall(next(kk), "x: Fraction", "pow(x, 0.5)", 1)]))
     programs.append(Program([snip_tcall(next(kk), "x: Fraction", "pow(x, 2)", 0)]))
@@ -1250,15 +1638,15 @@ def explain_requests(s, text, B):
         i = B.add("keys", ",".join(s.info["keys"]), ",".join(s.info["given"]), "0")
         return lambda: (B.kv(i)["out"] == "No value specified for keys " + m.group(1), B.out[i])
     if s.kind == "proto":
-        m = re.search(r"(<mod>\.P\d+ \(Protocol with members (.*?)\))", first)
-        if not m:
-            return lambda: (False, "unexpected message shape")
+        # since 99947e4 the head names the protocol only; the detail line names the first failing member of the
+        # sorted member loop (TypeObject.__str__ with the member list is compared at the API level, stream site-pstr)
         k = s.info["k"]
-        i = B.add("pstr", "<mod>.P%d" % k, ",".join(s.info["elems"]))
+        if "expected <mod>.P%d" % k not in first or "(Protocol with members" in first:
+            return lambda: (False, "unexpected message shape")
         j = B.add("pff", "<mod>.A%d" % k, ",".join(s.info["elems"]),
                   ",".join("%s=%s" % (a, b) for a, b in s.info["outcome"].items()))
         d0 = detail[0] if detail else "-"
-        return lambda: (B.kv(i)["out"] == m.group(1) and B.kv(j)["out"] == d0, B.out[i] + " / " + B.out[j])
+        return lambda: (B.kv(j)["out"] == d0, B.out[j])
     if s.kind == "or":
         m = re.search(r"Revealed type is '(.*)' \(code: reveal_type\)$", first)
         if not m:
@@ -1293,6 +1681,12 @@ def explain_requests(s, text, B):
                 return True, "explained", hits
             return False, "no order of the definition nodes gives %r" % m.group(1)
         return done
+    if s.kind == "inset":
+        m = re.search(r"Revealed type is '(.*)' \(code: reveal_type\)$", first)
+        if not m:
+            return lambda: (False, "unexpected message shape")
+        i = B.add("inset", ",".join(s.info["elems"]))   # the set payload is sorted (c06bd97): one possible text
+        return lambda: (B.kv(i)["out"] == m.group(1), B.out[i])
     if s.kind == "defnodes":
         m = re.search(r"Revealed type is '(.*)' \(code: reveal_type\)$", first)
         pat = re.compile(r"<mod>\.D%d_(\d+)$" % s.info["k"])
@@ -1324,7 +1718,7 @@ def explain_requests(s, text, B):
 
 
 # snippet kinds whose diagnostics a Lean site function must reproduce
-MODELLED = ("kwargs", "keys", "proto", "or", "try", "defnodes")
+MODELLED = ("kwargs", "keys", "proto", "or", "try", "defnodes", "inset")
 # the order classes still open in /repo, by the hint handed to Lean `orderClass`
 ORDER_CLASS = {"try": "tryDefNodeOrder", "defnodes": "defNodeSetOrder"}
 
@@ -1445,6 +1839,21 @@ def api_sites(ctx, B, post):
                 if kv.get("done") != "1" or kv.get("result") != impl:
                     ctx.disagree("site-closure", {"site": "_get_recursive_typeshed_bases", "type": repr(typ)}, impl, B.out[i])
             post.append(chk3)
+    # --- TypeObject.__str__ (still printed inside CanAssignError details): sorted member list
+    for _ in range(ctx.n(10, 60)):
+        ms = rng.sample(NAMEPOOL, rng.randint(1, 5))
+        ns2 = {}
+        exec("from typing import Protocol\nclass PS(Protocol):\n" + "".join("    def %s(self) -> int: ...\n" % m for m in ms), ns2)
+        got = str(chk_.make_type_object(ns2["PS"]))
+        base = got.split(" (Protocol")[0]
+        i = B.add("pstr", base, ",".join(ms))
+        ctx.count(1, site_pstr=1)
+
+        def chk5(i=i, got=got, ms=ms):
+            ctx.corr("site-pstr")
+            if B.kv(i).get("out") != got:
+                ctx.disagree("site-pstr", {"site": "TypeObject.__str__", "members": ms}, got, B.out[i])
+        post.append(chk5)
     # --- isort against sorted (spec validation)
     for _ in range(ctx.n(20, 200)):
         xs = [rng.randrange(128) for _ in range(rng.randint(0, 6))]
@@ -1778,7 +2187,7 @@ def e2e(ctx, B, post, worlds, with_model, watch_sites=(), kinds=None):
                 s = programs[n].snippet_at(d[0])
                 if s is None or s.kind not in MODELLED:
                     continue
-                if s.kind in ("or", "try", "defnodes") and d[2] != "reveal_type":
+                if s.kind in ("or", "try", "defnodes", "inset") and d[2] != "reveal_type":
                     continue
                 if s.kind in ("kwargs",) and d[2] != "incompatible_call":
                     continue
@@ -1918,8 +2327,6 @@ def e2e(ctx, B, post, worlds, with_model, watch_sites=(), kinds=None):
                     kb = [k for k in explained if k[0] == n and k[1] == id(s) and k[2] in tb]
                     conforms = bool(ka) and bool(kb) and all(ok_text[k] for k in ka + kb)
                     cls = ("pending", "defnodes" if s.kind == "or" else s.kind, ta, tb)
-                if cls is None and os.environ.get("C10_DEBUG"):
-                    print("DEBUG2", line, s and s.kind, s and (s.first, s.last), with_model, [(x.kind, x.first, x.last) for x in p.snippets], file=sys.stderr)
                 key = (s.kind if s else None, label[:4])
                 if key in seen_cand and cls is not None:
                     continue
@@ -1990,6 +2397,14 @@ def run_corpus(ctx, B, post, with_model):
             if ctx.scratch not in sys.path:
                 sys.path.insert(0, ctx.scratch)
             importlib.invalidate_caches()
+    pjobs = []
+    for n, e in enumerate(entries):
+        if e["kind"] == "process-history":
+            hist = [procstate_program(e["route"], e["name"], e["history_types"], e["n"], e["uses"] + j, "Item") for j in range(2)]
+            prog = procstate_program(e["route"], e["name"], e["program_types"], e["n"], 4, "Record")
+            tag = "corpus%d-%d" % (getattr(ctx, "_c10_runs", 0) + 1, n)
+            pjobs.append((e, hist, prog, start_proc_job(ctx, {"history": [], "program": prog, "share": True}, tag + "a"),
+                          start_proc_job(ctx, {"history": hist, "program": prog, "share": True, "watch": True}, tag + "h")))
     seeded = [e for e in entries if e["kind"] == "program" and e.get("seeds")]
     jobs = [start_under_seed(ctx, [e["src"] for e in seeded], s, "corpus%d" % (getattr(ctx, "_c10_runs", 0) + 1))
             for s in (1, 2, 3)] if seeded else []
@@ -2021,6 +2436,14 @@ def run_corpus(ctx, B, post, with_model):
         res = finish_under_seed(job)
         for e, r in zip(seeded, res):
             e["_others"].append(("seed%d" % job[2], r))
+    for e, hist, prog, ja, jh in pjobs:
+        ra, rh = finish_proc_job(ja), finish_proc_job(jh)
+        if ra["rendering"] != rh["rendering"] or rh["changes"]:
+            ctx.candidate({"kind": "process-history", "history": hist, "program": prog, "share": True},
+                          "corpus: a program's diagnostics / the process-level state depend on unrelated programs checked earlier "
+                          "in the process (%d diagnostics differ; %s)" % (
+                              sum(1 for a, b in zip(ra["rendering"], rh["rendering"]) if a != b), (rh["changes"] or [[""] * 4])[0][3][:120]),
+                          cls=None, conforms=True, stream="corpus")
     for e in entries:
         if e["kind"] != "program":
             continue
@@ -2067,6 +2490,7 @@ def _run(ctx, with_model):
     for w in worlds:
         w.load(ctx)
     watch_sites, kinds = scan_caches(pya.REPO), cache_kinds()
+    proc_pairs = start_procstate(ctx)      # fresh interpreters, in the background
     api_sites(ctx, B, post)
     api_unify(ctx, B, post)
     api_memo(ctx, B, post)
@@ -2076,6 +2500,7 @@ def _run(ctx, with_model):
     for w in e2e_worlds:
         w.wellfounded = w.ranks(member_orders(w, chk0)) is not None
     pending = e2e(ctx, B, post, e2e_worlds, with_model, watch_sites, kinds)
+    finish_procstate(ctx, proc_pairs)
     if with_model:
         B.run()
         for f in post:
@@ -2093,10 +2518,8 @@ def _run(ctx, with_model):
             if i is not None:
                 d = B2.kv(i).get("D")
                 c = d if d not in (None, "-") else None
-                if c is not None and c != ORDER_CLASS[cls[1]]:
+                if c is not None and c != ORDER_CLASS.get(cls[1]):
                     c = None
-            if c is None and os.environ.get("C10_DEBUG"):
-                print("DEBUG unclassified", cls and cls[1], i, B2.lines[i] if i is not None else None, B2.out[i] if i is not None else None, file=sys.stderr)
             ctx.candidate(case, what + ": %r / %r" % (case["text_fresh"][:120], case["text_other"][:120]), cls=c,
                           conforms=conforms, stream="e2e")
     else:
@@ -2117,7 +2540,16 @@ def replay(ctx, data):
     case = data["case"]
     out = {"case": {k: v for k, v in case.items() if k in ("run", "query", "history_queries", "line", "col")}}
     differs = False
-    if case.get("function") == "unify_bounds_maps":
+    if case.get("kind") == "process-history":
+        jobs = {"alone": start_proc_job(ctx, {"history": [], "program": case["program"], "share": True, "watch": False}, "rp-alone"),
+                "after": start_proc_job(ctx, {"history": case["history"], "program": case["program"], "share": case.get("share", True),
+                                              "watch": True}, "rp-after")}
+        res = {k: finish_proc_job(j) for k, j in jobs.items()}
+        nd = sum(1 for a, b in zip(res["alone"]["rendering"], res["after"]["rendering"]) if a != b)
+        out.update(diagnostics=len(res["alone"]["rendering"]), differing=nd, process_state_changes=res["after"]["changes"][:3],
+                   example=next(((a, b) for a, b in zip(res["alone"]["rendering"], res["after"]["rendering"]) if a != b), None))
+        differs = nd > 0 or bool(res["after"]["changes"])
+    elif case.get("function") == "unify_bounds_maps":
         from typing import TypeVar
         from pyanalyze.value import KnownValue, LowerBound, unify_bounds_maps
         tvs = [TypeVar("U%d" % i) for i in range(3)]
